@@ -514,6 +514,17 @@ func goExec(dir string, timeout time.Duration, stdin []byte, name string, args .
 // with an ERR and a new process serves the remaining ones: a command cannot make its neighbours
 // unobservable. died != "" means the process cannot even serve an empty script.
 func goDrive(bin, dir string, input []string) (out []byte, died string) {
+	for _, seg := range segmentLines(input) {
+		o, d := goDriveSegment(bin, dir, seg)
+		out = append(out, o...)
+		if d != "" {
+			return out, d
+		}
+	}
+	return out, ""
+}
+
+func goDriveSegment(bin, dir string, input []string) (out []byte, died string) {
 	var all bytes.Buffer
 	cmds := input
 	for deaths := 0; ; {
@@ -583,7 +594,7 @@ func goCmdID(line string) string {
 func goAnswered(so []byte) (n int, openDec bool) {
 	for _, l := range bytes.Split(so, []byte{'\n'}) {
 		switch {
-		case bytes.HasPrefix(l, []byte("ENC ")), bytes.HasPrefix(l, []byte("ERR ")):
+		case bytes.HasPrefix(l, []byte("ENC ")), bytes.HasPrefix(l, []byte("ERR ")), bytes.HasPrefix(l, []byte("OK ")):
 			n++
 			openDec = false
 		case bytes.HasPrefix(l, []byte("DEC ")):
